@@ -30,7 +30,10 @@ NCPU = os.cpu_count() or 4
 LIBDIRS = ["Exception", "Math", "Material", "Utilities", "System", "Glossary",
            "UnicodeSupport", "NUMODIS", "Config", "Tests"]
 
-SAN_FLAGS = ["-fsanitize=address,undefined", "-fno-sanitize-recover=all",
+# vptr is excluded: with TFEL's -fvisibility=hidden the type_info objects are duplicated across
+# the shared libraries and UBSan's vptr check reports false "does not point to an object of type"
+# errors on perfectly valid calls (seen on mfront::MFront at start-up).
+SAN_FLAGS = ["-fsanitize=address,undefined", "-fno-sanitize=vptr", "-fno-sanitize-recover=all",
              "-fno-omit-frame-pointer"]
 FLAVOURS = {
     # flavour: (tree, compile flags, link flags)
@@ -50,7 +53,7 @@ _COMMON = ("-fvisibility-inlines-hidden -fvisibility=hidden -DTFEL_HAVE_NORETURN
            "-DLINUX64 -DUNIX64 -DTHREAD -fno-fast-math -w -D" + GUARD)
 _CCOMMON = "-DLINUX64 -DUNIX64 -DTHREAD -w -D" + GUARD
 _PLAIN = " -ftree-vectorize -march=native -DTFEL_NO_RUNTIME_CHECK_BOUNDS -O2 -DNDEBUG"
-_ASAN = " -O1 -g1 -fno-omit-frame-pointer -fsanitize=address,undefined -fno-sanitize-recover=all"
+_ASAN = " -O1 -g1 -fno-omit-frame-pointer -fsanitize=address,undefined -fno-sanitize=vptr -fno-sanitize-recover=all"
 TREE_CFG = {
     "plain": ["-DUSE_EXTERNAL_COMPILER_FLAGS=ON", "-DCMAKE_BUILD_TYPE=Release",
               "-DCMAKE_CXX_FLAGS_RELEASE=", "-DCMAKE_C_FLAGS_RELEASE=",
@@ -320,6 +323,8 @@ class Ctx:
 
     # -- tiers
     def n(self, quick, thorough):
+        if os.environ.get("VF_N"):  # debugging aid only: scale down a check
+            return max(1, int(os.environ["VF_N"]))
         return thorough if self.tier == "thorough" else quick
 
     @property
